@@ -84,10 +84,11 @@ Definition encode_path (l : bytes) : bytes := uri_encode pg_PathChars l.     (* 
 Definition uri_path (u : uri) : bytes :=
   if negb (nonempty (u_path u)) && u_httpx u then pg_SlashPath else u_path u.
 
-(* Uri::absolutePath(): computed once, then served from absolutePath_ *)
+(* Uri::absolutePath(): Encode(path(), pathAndQueryChars), computed once, then served from absolutePath_;
+   the set (regenerated: pg_AbsPathChars) is PathChars plus the query delimiter *)
 Definition uri_absolute_path (u : uri) : bytes * uri :=
   if nonempty (u_abspath_cache u) then (u_abspath_cache u, u)
-  else let v := uri_encode pg_PathChars (uri_path u) in
+  else let v := uri_encode pg_AbsPathChars (uri_path u) in      (* PathChars plus '?': path_ holds path and query *)
        (v, mkUri (u_front u) (u_httpx u) (u_urn u) (u_path u) (u_abs_cache u) v).
 
 (* Uri::absolute(): computed once, then served from absolute_ *)
